@@ -1,4 +1,5 @@
 import Anysystem.Proofs.R2
+import Anysystem.Proofs.C11Good
 import Anysystem.Spec.SearchSpec
 /-!
 # Key congruence of the model checker's state identity (C11), relative to the invariant that
@@ -24,21 +25,113 @@ def OverrideFreeFrom (h : Handler σ) (mode : Mode) (r : RState σ) : Prop :=
 def GoodState (h : Handler σ) (net : McNet) (mode : Mode) (s : McSys σ) : Prop :=
   s.net = net ∧ s.mode = mode ∧ SendsKnown h s ∧ ∃ r, Sim' s r ∧ OverrideFreeFrom h mode r
 
+theorem deliverTo_net {cfg : Cfg} {h : Handler σ} {s1 s' : McSys σ} {p : Nat} {i : Input}
+    (hok : McSys.deliverTo cfg h s1 p i = .ok s') : s'.net = s1.net := by
+  simp only [McSys.deliverTo] at hok
+  split at hok
+  · simp at hok
+  · split at hok
+    · simp at hok
+    · split at hok
+      · simp at hok
+      · exact (addEvents_frame _ hok).1
+
+theorem applyEvent_net {cfg : Cfg} {h : Handler σ} {s s' : McSys σ} {ev : Ev}
+    (hok : s.applyEvent cfg h ev = .ok s') : s'.net = s.net := by
+  cases ev with
+  | msg m src dst o => rw [applyEvent_msg] at hok; (have h1 := deliverTo_net hok; exact h1)
+  | timer p t d => rw [applyEvent_timer] at hok; (have h1 := deliverTo_net hok; exact h1)
+  | timerCancelled _ _ => simp only [McSys.applyEvent, Except.ok.injEq] at hok; subst hok; rfl
+  | dropped _ _ _ _ => simp only [McSys.applyEvent, Except.ok.injEq] at hok; subst hok; rfl
+  | duplicated _ _ _ _ => simp only [McSys.applyEvent, Except.ok.injEq] at hok; subst hok; rfl
+  | corrupted _ _ _ _ _ => simp only [McSys.applyEvent, Except.ok.injEq] at hok; subst hok; rfl
+
 theorem applyAlt_net (h : Handler σ) {s s' : McSys σ} {alt : Alt} (hok : s.applyAlt {} h alt = .ok s') :
-    s'.net = s.net := sorry
+    s'.net = s.net := by
+  cases alt with
+  | deliver id =>
+    simp only [McSys.applyAlt] at hok
+    split at hok
+    · simp at hok
+    · (have h1 := applyEvent_net hok; exact h1)
+  | drop id =>
+    simp only [McSys.applyAlt] at hok
+    split at hok
+    · simp at hok
+    · (have h1 := applyEvent_net hok; exact h1)
+    · simp at hok
+  | corrupt id =>
+    simp only [McSys.applyAlt] at hok
+    split at hok
+    · simp at hok
+    · split at hok
+      · simp at hok
+      · (have h1 := applyEvent_net hok; exact h1)
+    · simp at hok
+  | dup id =>
+    simp only [McSys.applyAlt] at hok
+    split at hok
+    · simp at hok
+    · split at hok
+      · simp at hok
+      · split at hok
+        · simp at hok
+        · split at hok
+          · simp at hok
+          · split at hok
+            · (have h1 := applyEvent_net hok; exact h1)
+            · simp at hok
 
 theorem goodState_closed [DecidableEq σ] (h : Handler σ) (p : Preds σ) (hash : McSys.Key σ → Nat)
-    (net : McNet) (mode : Mode) : InvClosed (mcTSys {} h p hash) (GoodState h net mode) := sorry
+    (net : McNet) (mode : Mode) : InvClosed (mcTSys {} h p hash) (GoodState h net mode) := by
+  rintro s cs ⟨hnet, hmode, hsk, r, hsim, hof⟩ hsucc c hc
+  have hsucc' : s.successors {} h = .ok cs := hsucc
+  obtain ⟨ids, id, alts, alt, hav, hid, halts, halt, happ⟩ := (mem_successors_iff h hsucc' c).mp hc
+  obtain ⟨l, hen, hstep⟩ := applyAlt_refines' h hsim hav hid halts halt happ
+  rw [hmode] at hen
+  obtain ⟨r', hr', hsim'⟩ := hstep (hof [] r rfl l hen)
+  have hcnet := applyAlt_net h happ
+  refine ⟨hcnet.trans hnet, (applyAlt_mode h happ).trans hmode, ?_, r', hsim', ?_⟩
+  · intro q st i a ha m dst hm
+    rw [hcnet]
+    exact hsk q st i a ha m dst hm
+  · intro ls r'' hrun l' hen'
+    refine hof (l :: ls) r'' ?_ l' hen'
+    simp only [refRun, hen, ↓reduceIte, hr']
+    exact hrun
 
 /-- C11: two good states the checker treats as equal have identical futures -/
 theorem mcTSys_congruentOn [DecidableEq σ] (h : Handler σ) (p : Preds σ) (hp : KeyBased p)
     (hash : McSys.Key σ → Nat) (net : McNet) (mode : Mode) :
-    CongruentOn (mcTSys {} h p hash) (GoodState h net mode) := sorry
+    CongruentOn (mcTSys {} h p hash) (GoodState h net mode) := by
+  rintro a b ⟨hanet, hamode, _, ra, hsa, _⟩ ⟨hbnet, hbmode, _, rb, hsb, _⟩ hk
+  have hk' : a.key = b.key := hk
+  have hkv : KV a b := KV.of_sim hsa hsb hk' (hanet.trans hbnet.symm) (hamode.trans hbmode.symm)
+  obtain ⟨hi, hg, hpr, hco⟩ := hp a b hk'
+  have hsucc := hkv.successors h
+  refine ⟨?_, hco, ?_, ?_⟩
+  · show p.verdict a = p.verdict b
+    simp only [Preds.verdict, hi, hg, hpr, hkv.events]
+  · intro ca hca
+    have hca' : a.successors {} h = .ok ca := hca
+    rw [hca'] at hsucc
+    cases hcb : b.successors {} h with
+    | error e => rw [hcb] at hsucc; exact hsucc.elim
+    | ok cb =>
+      rw [hcb] at hsucc
+      exact ⟨cb, hcb, hsucc.map_eq (fun x y hxy => hxy.key_eq)⟩
+  · intro e hea
+    have hea' : a.successors {} h = .error e := hea
+    rw [hea'] at hsucc
+    cases hcb : b.successors {} h with
+    | error e' => exact ⟨e', hcb⟩
+    | ok cb => rw [hcb] at hsucc; exact hsucc.elim
 
 /-- state identity covers process state, outbox, crash flag and the complete pending-event store -/
 theorem key_covers (a b : McSys σ) (hk : a.key = b.key) :
     a.events = b.events ∧
     a.nodes.map (fun nd => (nd.1, nd.2.crashed, nd.2.procs.map fun pe => (pe.1, pe.2.st, pe.2.outbox))) =
-    b.nodes.map (fun nd => (nd.1, nd.2.crashed, nd.2.procs.map fun pe => (pe.1, pe.2.st, pe.2.outbox))) := sorry
+    b.nodes.map (fun nd => (nd.1, nd.2.crashed, nd.2.procs.map fun pe => (pe.1, pe.2.st, pe.2.outbox))) :=
+  key_covers_aux a b hk
 
 end Anysystem
